@@ -16,6 +16,13 @@ CLAIMED = {
          "the Python functions by differential correspondence on boundary-directed and malformed inputs and by the round-trip oracle on the "
          "implementation. Codecs not yet modelled are listed in DESIGN.md section C15.",
          "Rocq proof of codec round-trip theorems over a hand-written model + extracted-model/implementation correspondence"),
+ "C04": ("Theorems over the Gallina transcription of the sfnt writer (calcChecksum, getSearchRange, SFNTWriter.__setitem__/close/"
+         "_calcMasterChecksum): checksum additivity over aligned blocks and padding invariance, search fields equal the OpenType definition "
+         "(largest power of two <= numTables), every table lies 4-aligned/in bounds/non-overlapping with exactly its bytes where the directory "
+         "says (layout_sound), and a file with one head table checksums to 0xB1B0AFBA (master_checksum). Tied to the code by byte-exact "
+         "correspondence on random table lists; WOFF/WOFF2/TTC containers and all derived fields (bboxes, maxp, hhea, hmtx, loca) are checked "
+         "on the implementation by an independent spec reader over corpus and generated boundary fonts (testing, reported as such).",
+         "Rocq proof over a hand-written writer model + byte-exact correspondence + independent-reader sweep"),
 }
 
 def main():
